@@ -10,6 +10,7 @@ import (
 	"time"
 
 	"github.com/douban/gobeansdb/cmem"
+	"github.com/douban/gobeansdb/config"
 	"github.com/douban/gobeansdb/quicklz"
 	simrt "github.com/douban/gobeansdb/zzsimrt"
 )
@@ -448,6 +449,8 @@ func (x *seqExec) exec(op Op) {
 		}
 	case "gc":
 		x.doGC(op)
+	case "reroute":
+		x.doReroute(op)
 	case "list":
 		x.doListing(uint64(op.Delta))
 	}
@@ -916,6 +919,62 @@ func (x *seqExec) plantGoCompressed(seed uint32) {
 	x.out.probe("planted-go-compressed-record")
 }
 
+// applyRoute makes route the served-bucket set of the model (and of later generations).
+func (x *seqExec) applyRoute(route []int) {
+	x.plan.Cfg.Served = append([]int(nil), route...)
+	x.sim.Cfg.Served = x.plan.Cfg.Served
+	for i, k := range x.plan.Keys {
+		was := x.m.Keys[i].Unserved
+		now := !x.plan.Cfg.served(bucketOf(&x.plan.Cfg, k))
+		x.m.Keys[i].Unserved = now
+		if was != now {
+			if now {
+				x.out.probe("route-change:key-no-longer-served")
+			} else {
+				x.out.probe("route-change:key-served-again")
+			}
+		}
+	}
+}
+
+// doReroute: a route change on the running process (HStore.ChangeRoute, what the route-reload
+// admin request calls with the table read from ZooKeeper): buckets are hot-unloaded (flushed,
+// closed, released after a 10 s grace period) and hot-loaded (opened from their directory).
+func (x *seqExec) doReroute(op Op) {
+	g := x.g
+	cfg := &x.plan.Cfg
+	if cfg.NumBucket <= 1 || op.Route == nil {
+		return
+	}
+	nc := config.DBRouteConfig{NumBucket: cfg.NumBucket, BucketsStat: make([]int, cfg.NumBucket)}
+	for _, b := range op.Route {
+		nc.BucketsStat[b] = 1 // as RouteTable.GetDBRouteConfig builds it
+	}
+	g.W.WaitIdle()
+	loaded, unloaded, err := g.H.ChangeRoute(nc)
+	if err != nil {
+		x.fail("R-route-change-failed", fmt.Sprintf("%s: ChangeRoute failed: %v", op, err))
+		return
+	}
+	x.out.fault("hot-route-change")
+	if len(loaded) > 0 {
+		x.out.probe("route-change:bucket-hot-loaded")
+	}
+	if len(unloaded) > 0 {
+		x.out.probe("route-change:bucket-hot-unloaded")
+	}
+	x.applyRoute(op.Route)
+	// a hot-loaded bucket reopens its indexes like a restart does (tombstones may leave the index)
+	for i, k := range x.plan.Keys {
+		for _, b := range loaded {
+			if bucketOf(cfg, k) == b {
+				x.m.Keys[i].Restart()
+			}
+		}
+	}
+	x.verifyAll("after-hot-route-change", false)
+}
+
 // applyRestart deletes the drawn subset of derived index files between two generations.
 func (x *seqExec) applyRestart(op *Op) {
 	x.gen++
@@ -926,20 +985,7 @@ func (x *seqExec) applyRestart(op *Op) {
 		// route change: the next generation serves another set of buckets. A bucket that is no
 		// longer served keeps its directory; its keys must miss and nothing may be stored for them.
 		// A bucket that is served (again) carries whatever its directory holds.
-		x.plan.Cfg.Served = append([]int(nil), op.Route...)
-		x.sim.Cfg.Served = x.plan.Cfg.Served
-		for i, k := range x.plan.Keys {
-			was := x.m.Keys[i].Unserved
-			now := !x.plan.Cfg.served(bucketOf(&x.plan.Cfg, k))
-			x.m.Keys[i].Unserved = now
-			if was != now {
-				if now {
-					x.out.probe("route-change:key-no-longer-served")
-				} else {
-					x.out.probe("route-change:key-served-again")
-				}
-			}
-		}
+		x.applyRoute(op.Route)
 		x.out.fault("route-change-at-restart")
 	}
 	if x.plan.Prop == "C10" && op.DelSeed%2 == 1 && !op.Kill {
